@@ -601,8 +601,13 @@ class Proofs:
                     chosen.add(T.cell_of(T.enc_account, accounts[int.from_bytes(other, 'big')]['account']).hash)
             if rng.random() < 0.8:
                 chosen.add(state.refs[0].hash)        # out_msg_queue_info
-            if rng.random() < 0.8:
+            if rng.random() < 0.6:
                 chosen.add(state.refs[2].hash)        # ^[ overload_history ... ]
+            else:
+                # the group is kept, but the dictionaries that hang off it (extra currencies of total_balance / total_validator_fees) are pruned at their roots
+                for x in state.refs[2].refs:
+                    chosen.add(x.hash)
+                    R.count('dictionary_roots_pruned')
             tc = T.cell_of(T.enc_account, accounts[int.from_bytes(target, 'big')]['account'])
             if prune_target_account:
                 chosen.add(tc.hash)
